@@ -213,6 +213,15 @@ func ruleErrPropagation(c *Ctx) {
 			if !waited {
 				report("parseMessage:nil-return:join", sp.RetNode, "the asynchronous branch returns without waiting for the stage-2 goroutine (its error and its writes to the tape are not yet visible)", "")
 			}
+			// what comes back when stage 1 succeeded is the named result the goroutine writes its error to — returning
+			// any other (nil) value overwrites it
+			resName := ""
+			if fd.Type.Results != nil && len(fd.Type.Results.List) == 1 && len(fd.Type.Results.List[0].Names) == 1 {
+				resName = fd.Type.Results.List[0].Names[0].Name
+			}
+			if r := sp.Ret[0].String(); resName == "" || (r != "zero:"+resName && r != "L:"+resName) {
+				report("parseMessage:nil-return:stage2-result", sp.RetNode, "after a successful stage 1 the asynchronous branch returns "+r+" instead of the named result the stage-2 goroutine records its error in: a stage-2 failure is reported as success", "a document above 8 KiB with a grammar error")
+			}
 		} else {
 			s2 := false
 			for _, cd := range sp.Conds {
@@ -258,6 +267,61 @@ func ruleErrPropagation(c *Ctx) {
 			}
 		}
 		c.MinCount("stage-2 goroutine paths", nG, 2)
+		// what the goroutine writes is not written by the starter while the goroutine may be running (between the go
+		// statement and wg.Wait()): the later write wins, so a stage-2 error could be overwritten with nil
+		shared := map[types.Object]bool{}
+		ast.Inspect(lit.Body, func(n ast.Node) bool {
+			if as, ok := n.(*ast.AssignStmt); ok {
+				for _, l := range as.Lhs {
+					if id, ok := ast.Unparen(l).(*ast.Ident); ok {
+						if o := p.ObjOf(id); o != nil && (o.Pos() < lit.Pos() || o.Pos() > lit.End()) {
+							shared[o] = true
+						}
+					}
+				}
+			}
+			return true
+		})
+		var gsStmt *ast.GoStmt
+		ast.Inspect(fd.Body, func(n ast.Node) bool {
+			if g, ok := n.(*ast.GoStmt); ok && g.Call.Fun == ast.Expr(lit) {
+				gsStmt = g
+			}
+			return true
+		})
+		var waitPos token.Pos
+		if gsStmt != nil {
+			ast.Inspect(fd.Body, func(n ast.Node) bool {
+				if _, ok := n.(*ast.FuncLit); ok {
+					return false
+				}
+				if call, ok := n.(*ast.CallExpr); ok && strings.HasSuffix(p.CalleeName(call), "sync.WaitGroup).Wait") && call.Pos() > gsStmt.End() && (waitPos == 0 || call.Pos() < waitPos) {
+					waitPos = call.Pos()
+				}
+				return true
+			})
+		}
+		if gsStmt == nil || waitPos == 0 {
+			c.Undecided("parseMessage:goroutine:shared-writes", p.Pos(lit), "go statement or the following wg.Wait() not found")
+		} else {
+			var clash []string
+			ast.Inspect(fd.Body, func(n ast.Node) bool {
+				if _, ok := n.(*ast.FuncLit); ok {
+					return false
+				}
+				as, ok := n.(*ast.AssignStmt)
+				if !ok || as.Pos() < gsStmt.End() || as.Pos() > waitPos {
+					return true
+				}
+				for _, l := range as.Lhs {
+					if id, ok := ast.Unparen(l).(*ast.Ident); ok && shared[p.ObjOf(id)] {
+						clash = append(clash, "`"+p.Str(as)+"` at "+p.Pos(as))
+					}
+				}
+				return true
+			})
+			c.Check(len(clash) == 0, "parseMessage:goroutine:shared-writes", p.Pos(gsStmt), "the starter does not assign what the goroutine assigns before wg.Wait()", "parseMessage writes a variable the stage-2 goroutine also writes while that goroutine may still run ("+strings.Join(clash, "; ")+"): whichever write comes last wins, so an error recorded by stage 2 can be replaced by stage 1's nil", "a document above 8 KiB with a grammar error well before its end")
+		}
 	}
 	if len(bad) == 0 {
 		c.Ok("parseMessage:errors", p.Pos(fd), "nil is returned only when both stages reported success; the goroutine records an error on every non-ok path")
@@ -1397,7 +1461,16 @@ func ruleCursor(c *Ctx) {
 		// classify: done path
 		doneA, _ := sp.Ret[0].SingleAtom()
 		// the terminator test: done is exactly `<received buffer>.index == -1`
-		const termTest = "(-1==P:pj.indexesChan.index)"
+		// D: the descriptor in force after the (possible) receive — the received value itself, so that a terminator
+		// test or an index read made *before* the receive (on the exhausted descriptor) does not qualify
+		D := "P:pj.indexesChan"
+		if received {
+			D = "(<-P:pj.indexChans)"
+		}
+		termTest := "(" + D + ".index==-1)"
+		if !received {
+			termTest = "(-1==" + D + ".index)"
+		}
 		isDone, notDone := false, false
 		for _, cd := range sp.Conds {
 			if cd.Other == termTest {
@@ -1439,20 +1512,14 @@ func ruleCursor(c *Ctx) {
 			why = "idx is not idx_in + one index entry: " + idx.String()
 		}
 		for a, cf := range idx.T {
-			if a != "P:idx_in" && (a != "P:pj.indexesChan.indexes[P:pj.indexesChan.index]" || cf != 1) {
+			if a != "P:idx_in" && (a != D+".indexes["+D+".index]" || cf != 1) {
 				okAll = false
 				why = "idx is not idx_in + indexes[index]: " + idx.String()
 			}
 		}
 		// index++ exactly
 		fin := finalOf(sp.Env, "P:pj.indexesChan.index")
-		base := "P:pj.indexesChan.index"
-		if received {
-			// after a receive the index field belongs to the new buffer: atom of the received value
-			for a := range fin.T {
-				base = a
-			}
-		}
+		base := D + ".index"
 		if !fin.Eq(affAtom(base).Add(affK(1), 1)) {
 			okAll = false
 			why = "index not advanced by exactly one: " + fin.String()
